@@ -6,7 +6,7 @@ BOUNDS = {
     "quick": "1-level fibers with 0..3 stored elements, symbolic coordinates and values: iterOccupancy / iterRange(start,end) (unbounded symbolic range, None ends) / "
              "iterActive; iterShape(Ref), iterRangeShape(Ref)(start, end, step in {1,2}) with span <= 4; __iter__ under formats C and U; __reversed__; every start_pos; "
              "lazy fibers (a & b, project, prune) iterated twice and materialised with fromLazy; project(c -> c+o / o-c, interval) and prune(c < theta); "
-             "coiterRangeShape(Ref), coiterShape(Ref) and coiterActiveShape(Ref) on two fibers",
+             "coiterRangeShape(Ref), coiterShape(Ref) and coiterActiveShape(Ref) on two fibers; coiterShape(Ref) / coiterActiveShape(Ref), co-iterated fibers with different defaults, default iteration of a 'U' rank with a start_pos, traversals of fibers of sub-fibers, lazy results of fibers with a non-zero default, a search shortcut used before a dense (reference) traversal",
     "thorough": "fibers up to 4 elements, span <= 5, step 3, coiteration of 3 fibers",
 }
 OUTSIDE = "spans beyond the bound for shape loops; non-affine coordinate transforms; lazy fibers produced by populate (fromLazy documents it does not support them)"
